@@ -287,3 +287,55 @@ def c07_flag(R):
     R.need(n >= 20, f"only {n} simplifiers found")
     if flagged == 0:
         R.ok(m, None, "no simplifier claims to have dealt with annotations")
+
+
+_FLATTENED = {"__and__", "__or__", "__xor__", "__add__", "__mul__", "And", "Or"}  # the operators _flatten_simplifier is installed for
+
+
+@rule(
+    "C01.arity",
+    props=("C01",),
+    floor=1,
+    family="GRD",
+    desc="a rewrite of simplifications.py that recognises (identity tests) or rebuilds a node of a flattened operator from "
+    "its operands 0 and 1 does so under a fact that the node has exactly two operands: (a ^ b) ^ k, (m & x) & y are one "
+    "node with three operands, and a rewrite that reads two of them drops the third",
+)
+def c01_arity(R):
+    tree = R.tree
+    m = tree.mod(SIMP)
+    n = examined = 0
+    for name, fn0 in m.functions.items():
+        if not isinstance(fn0, ast.FunctionDef) or not name.endswith(("_simplifier", "_minmax")):
+            continue
+        fn = util.resolve_locals(tree.func_inlined(SIMP, name))
+        for r in _returns(fn):
+            facts = _facts(r)
+            txt = ast.unparse(r.value)
+            for f in facts:
+                mm = re.fullmatch(r"(.+)\.op == '(\w+)'", f)
+                if not mm or mm.group(2) not in _FLATTENED:
+                    continue
+                P = re.escape(mm.group(1))
+                examined += 1
+                both_in_value = re.search(P + r"\.args\[0\]", txt) and re.search(P + r"\.args\[1\]", txt)
+                rest = re.sub(P + r"\.args\[[01]\]", "", txt)
+                whole_in_value = re.search(P + r"(?![\w.\[])|" + P + r"\.args(?!\[)", rest)
+                matched_by_identity = any(re.search(P + r"\.args\[0\] is ", g) and re.search(P + r"\.args\[1\] is ", g) for g in facts)
+                if not ((both_in_value and not whole_in_value) or matched_by_identity):
+                    continue
+                n += 1
+                two = any(re.search(r"len\(" + P + r"\.args\) == 2", g) for g in facts)
+                R.check(
+                    two,
+                    m,
+                    r,
+                    f"{name}: operands 0 and 1 of a {mm.group(2)} node read only where it has two operands",
+                    f"{name} returns `{norm(r.value)[:70]}` after reading operands 0 and 1 of `{mm.group(1)}` ({mm.group(2)}, a flattened "
+                    f"operator) with no fact that it has exactly two: a third operand is dropped - ((2 & x) & y) ^ 2 == 0 was built "
+                    f"as (x & 2) != 0, and the min/max idiom over (s ^ q) ^ k lost k",
+                    construct=f"{name}: two operands of a flattened {mm.group(2)} node",
+                )
+    R.need(examined >= 10, f"only {examined} flattened-operator facts examined in the simplifiers")
+    if n == 0:
+        R.ok(m, None, "no rewrite reads two operands of a flattened node")
